@@ -108,6 +108,21 @@ ALL = {
              'report, and a STRICT-accepted element draws no validator error other than missing required children.',
         note='Deep lexical side of DT/TM/DTM/NM/SI is C13. v2.5.',
         ref='DESIGN.md §3 C05'),
+    'C06': dict(
+        technique='solver-based: the real TextualDataType escape kernel executed on bounded symbolic strings (guarded bit-vector '
+                  'slots, engine pysym) with symbolic delimiters; z3 decides delimiter-safety, tokenisation, idempotence and fixpoint '
+                  'per length; CrossHair/z3-exhausted cross-check on the unmodified class',
+        engine='pysym-e2 + crosshair-e1',
+        text='Bounded model checking of the escape kernel itself: for every distinct kernel x version class, 7 escape characters, '
+             'every value of length 0..16 (thorough 0..32) over printable ASCII and EVERY assignment of pairwise distinct punctuation '
+             'marks to the 4-5 delimiter roles (symbolic), z3 shows: no delimiter in the output, the output tokenises into ordinary '
+             'characters and ESC-letter-ESC (modulo the recorded dangling-escape family), escaping again changes nothing, well-formed '
+             'delimiter-free input is unchanged. The unmodified class with the real re module is cross-checked on every string of '
+             'length <=4 over a 12-character alphabet, and assignment through datatype objects keeps separator counts.',
+        note='The classes are the real ones; only the name `re` in the two base_datatypes modules is bound to a shim that evaluates '
+             'the look-around regex (as built by the code, parsed by CPython) on guarded slots. Every model is replayed on the '
+             'unmodified library. Highlights, non-ASCII and multi-letter escapes are outside.',
+        ref='DESIGN.md §3 C06'),
     'C07': dict(
         technique='solver-based: CrossHair/z3 symbolic execution of parser._split_msh/get_message_info on 5-6 fully symbolic '
                   'delimiter characters; CrossHair/z3 exhaustion of all role assignments over a candidate set at message level',
@@ -216,6 +231,9 @@ def main():
         'engines': [
             {'name': 'crosshair-e1', 'path': 'vlib/chworker.py + harness/cNN.py', 'serves_properties': sorted(CHECKS),
              'kind_free_text': E1},
+            {'name': 'pysym-e2', 'path': 'pysym/ + harness/c06.py (_e2_escape)', 'serves_properties': [p for p in ('C06', 'C13') if p in CHECKS],
+             'kind_free_text': 'the repo\'s string kernels executed on bounded symbolic strings (guarded BV8 slots); obligations are '
+                               'z3 queries per length; models replayed on the unmodified library'},
             {'name': 'z3-e3', 'path': 'vlib/fnworker.py + harness/c02.py (_e3_run)', 'serves_properties': ['C02'],
              'kind_free_text': 'z3 queries over ground facts extracted from the live version tables on every run; models are '
                                'replayed through the public API'},
